@@ -186,6 +186,9 @@ def run(ctx):
         # ---- direct oracle job
         if kind in VALUE_KINDS and i["res"] in ("value", "error"):
             oracle_jobs.append((pi, off, i, kind))
+    if n_value + n_error > 20 and not kinds_hist:
+        ctx.disagree("evalupto", {}, None, None, detail="the hook reports no observed expression id for any position "
+                     "(is the cfg-guarded call of verif_runner::note_observed in eval_up_to missing?)")
     ctx.cov["positions"] = len(cases)
     ctx.cov["answers"] = {"value": n_value, "error": n_error, "nothing": n_noexpr}
     ctx.cov["observed_node_kinds"] = kinds_hist
